@@ -203,8 +203,20 @@ def S_bnot(n):
     return spec
 
 
-def entry(op, spec, ins, params=None, alt=(), k=10, what=""):
-    return dict(op=op, spec=spec, ins=list(ins), params=params or {}, alt=[list(a) for a in alt], k=k, what=what)
+def entry(op, spec, ins, params=None, alt=(), k=10, what="", variants=()):
+    return dict(op=op, spec=spec, ins=list(ins), params=params or {}, alt=[list(a) for a in alt], k=k, what=what,
+                variants=list(variants))
+
+
+def V_wraps(d, only_rem=False):
+    """Counterexample class of the div_rem finding: the claimed (q, r) are the integer quotient and
+    remainder of dividend + p (q*d + r wraps around the field modulus)."""
+    def pred(e, I, O):
+        xp = f"(+ {A(I[0])} {P})"
+        if only_rem:
+            return eq(O[0], f"(mod {xp} {d})")
+        return AND(eq(O[0], f"(div {xp} {d})"), eq(O[1], f"(mod {xp} {d})"))
+    return pred
 
 
 def family(tier, seed):
@@ -339,8 +351,10 @@ def family(tier, seed):
         params = {"d": d}
         if bound is not None:
             params["bound"] = bound
-        E.append(entry("div_rem", S_div_rem(d, bound), [x], params, alt=[[0], [hi], [d], [d - 1]]))
-        E.append(entry("rem", S_div_rem(d, bound, only_rem=True), [x], params, alt=[[0], [hi]]))
+        E.append(entry("div_rem", S_div_rem(d, bound), [x], params, alt=[[0], [hi], [d], [d - 1]],
+                       variants=[("quotient-wraps-modulus", V_wraps(d))]))
+        E.append(entry("rem", S_div_rem(d, bound, only_rem=True), [x], params, alt=[[0], [hi]],
+                       variants=[("quotient-wraps-modulus", V_wraps(d, only_rem=True))]))
     # ---- Bitwise ----
     for n in ([1, 4, 8, 9, 16] if tier == "quick" else [1, 2, 4, 7, 8, 9, 16, 24, 32, 64]):
         x, y = rnd.randrange(1 << n), rnd.randrange(1 << n)
